@@ -164,4 +164,53 @@ example (text : Str) : readSrcWords ["disco:0".toList] (.brackets text) = readSr
   have : inOptsOf (optionsDict ["disco:0".toList]) = some {} := by decide +kernel
   simp only [readSrcWords, this]; rfl
 
+/-! ### `--dest-opts` -/
+
+/-- every writer option is ON iff some word has its key -/
+theorem outOptsOf_flags (ws : List Str) :
+    ((outOptsOf (optionsDict ws)).gf = true ↔ ∃ w ∈ ws, (parseOption w).1 = "gf".toList) ∧
+    ((outOptsOf (optionsDict ws)).gfTerminals = true ↔ ∃ w ∈ ws, (parseOption w).1 = "gf_terminals".toList) ∧
+    ((outOptsOf (optionsDict ws)).markHeads = true ↔ ∃ w ∈ ws, (parseOption w).1 = "mark_heads_marking".toList) ∧
+    ((outOptsOf (optionsDict ws)).splitMarking = true ↔ ∃ w ∈ ws, (parseOption w).1 = "boyd_split_marking".toList) ∧
+    ((outOptsOf (optionsDict ws)).splitNumbering = true ↔ ∃ w ∈ ws, (parseOption w).1 = "boyd_split_numbering".toList) ∧
+    ((outOptsOf (optionsDict ws)).emptyRoot = true ↔ ∃ w ∈ ws, (parseOption w).1 = "brackets_emptyroot".toList) ∧
+    ((outOptsOf (optionsDict ws)).skipDisco = true ↔ ∃ w ∈ ws, (parseOption w).1 = "brackets_skipdisco".toList) ∧
+    ((outOptsOf (optionsDict ws)).exportFour = true ↔ ∃ w ∈ ws, (parseOption w).1 = "export_four".toList) ∧
+    ((outOptsOf (optionsDict ws)).terminalsOne = true ↔ ∃ w ∈ ws, (parseOption w).1 = "terminals_one".toList) ∧
+    ((outOptsOf (optionsDict ws)).terminalsPos = true ↔ ∃ w ∈ ws, (parseOption w).1 = "terminals_pos".toList) ∧
+    ((outOptsOf (optionsDict ws)).posOnly = true ↔ ∃ w ∈ ws, (parseOption w).1 = "pos_only".toList) :=
+  ⟨has_iff ws _, has_iff ws _, has_iff ws _, has_iff ws _, has_iff ws _, has_iff ws _, has_iff ws _, has_iff ws _,
+    has_iff ws _, has_iff ws _, has_iff ws _⟩
+
+/-- no `gf_separator` word: the default separator -/
+theorem outOptsOf_sep_none (ws : List Str) (h : ∀ w ∈ ws, (parseOption w).1 ≠ "gf_separator".toList) :
+    (outOptsOf (optionsDict ws)).gfSeparator = none := by
+  have : (optLookup (optionsDict ws) "gf_separator".toList).isSome = false := by
+    rw [Bool.eq_false_iff, Ne, has_iff]
+    rintro ⟨w, hw, e⟩
+    exact h w hw e
+  simp only [outOptsOf]
+  cases hl : optLookup (optionsDict ws) "gf_separator".toList with
+  | none => rfl
+  | some v => rw [hl] at this; cases this
+
+/-- the LAST `gf_separator` word decides, through `str()` -/
+theorem outOptsOf_sep_last (pre post : List Str) (w : Str) (hk : (parseOption w).1 = "gf_separator".toList)
+    (hpost : ∀ p ∈ post, (parseOption p).1 ≠ "gf_separator".toList) :
+    (outOptsOf (optionsDict (pre ++ [w] ++ post))).gfSeparator = some (match (parseOption w).2 with
+      | .str s => s
+      | .int n => natToStr n
+      | .flag => "True".toList) := by
+  have hl := optionsDict_lookup pre post w (by rw [hk]; exact hpost)
+  rw [hk] at hl
+  simp only [outOptsOf, hl, Option.map_some]
+  cases (parseOption w).2 <;> rfl
+
+example : outOptsOf (optionsDict ["gf:0".toList, "gf_separator:+".toList, "export_four".toList, "gf_separator:007".toList]) =
+    { gf := true, gfSeparator := some ['7'], exportFour := true } := by decide +kernel
+example : (outOptsOf (optionsDict ["gf_separator".toList])).gfSeparator = some "True".toList := by decide +kernel
+
+theorem runWords2_nil (steps : List Step) (fmt : DestFmt) (enc : Option Str) (src : Source) :
+    runWords2 steps fmt [] enc [] src = some (runSrc steps fmt {} enc {} src) := rfl
+
 end TT.Props.C03Words
